@@ -55,6 +55,14 @@ inductive Kind
 
 /-- the fragment of JSON values used for defaults and examples -/
 inductive Val | null | bool | int | num | str | other
+  | obj (keys : List String)      -- a JSON object all of whose members are strings: the member names
+  deriving DecidableEq, Repr
+
+/-- how `validateExampleValue` reads an example: plainly, as part of a request (`VisitAsRequest`: a readOnly property
+must not be there and need not be there) or as part of a response (`VisitAsResponse`: the same for writeOnly). The
+reading is a field pair of the settings record (`examplesValidationAsReq` / `…AsRes`) that no option constructor
+writes; `RequestBody.Validate` and `Response.Validate` do (table `C04OptionState`) -/
+inductive Mode | plain | req | res
   deriving DecidableEq, Repr
 
 structure Attrs where
@@ -534,12 +542,25 @@ inductive Tri | yes | no | unmodelled
 /-- the schema constrains values by `type` / `nullable` only -/
 def simpleSchema (a : Attrs) : Bool := a.flag "simple"
 
+/-- an object value whose members are all strings against an object schema whose properties are all plain string
+schemas (flag `objSimple`, lists `required` / `roProps` / `woProps`): `visitJSONObject` under the reading `m` -/
+def acceptsObj (m : Mode) (a : Attrs) (keys : List String) : Tri :=
+  if !a.flag "objSimple" then .unmodelled
+  else
+    let ro := a.list "roProps"
+    let wo := a.list "woProps"
+    let present := (m = .req && keys.any ro.contains) || (m = .res && keys.any wo.contains)
+    let missing := (a.list "required").any (fun k =>
+      !keys.contains k && !(m = .req && ro.contains k) && !(m = .res && wo.contains k))
+    if present || missing then .no else .yes
+
 /-- `schema.VisitJSON(v)` on the fragment: a type mismatch always rejects; a match accepts when the
 schema has no other constraining keyword -/
-def accepts (a : Attrs) (v : Val) : Tri :=
+def acceptsIn (m : Mode) (a : Attrs) (v : Val) : Tri :=
   let ts := a.list "type"
   match v with
   | .other => .unmodelled
+  | .obj keys => acceptsObj m a keys
   | .null => if a.flag "nullable" then .yes else if simpleSchema a then .no else .unmodelled
   | v =>
     let tyOK := match v with
@@ -548,6 +569,11 @@ def accepts (a : Attrs) (v : Val) : Tri :=
     if ts.isEmpty then (if simpleSchema a then .yes else .unmodelled)
     else if !tyOK then .no
     else if simpleSchema a then .yes else .unmodelled
+
+/-- the reading inside document validation is the plain one: without options every settings access gets a record of
+its own (theorem `optionless_examples_read_plainly` over table `C04OptionState`); calls WITH options on documents
+with object examples are outside the modelled fragment (the driver reports them as unmodelled) -/
+def accepts (a : Attrs) (v : Val) : Tri := acceptsIn .plain a v
 
 /-- the attributes of the schema a `schema` position resolves to (`schema.Value`), if it is resolved -/
 def schemaAttrsAt (d : Doc) : Option Attrs :=
